@@ -651,6 +651,61 @@ def adjacency(ses, rep, fs):
                             ends_indent.append(t)
                         if side == "leading" and pv.variant == "Append" and seq[0] in ("space", "list-space-first"):
                             starts_space.append(t)
+                # a symbol whose TEXT carries a blank (`fmt_symbol!(.., " do", ..)`, `" = "`): an indent appended in front of it puts the blank after the
+                # indent; a newline appended behind it leaves the blank at the end of the line
+                for t in hv:
+                    last = t[1].split("::")[-1]
+                    snap = t[4] if len(t) > 4 else t[2]
+                    if last not in ("update_trailing_trivia", "update_leading_trivia") or len(snap) < 2:
+                        continue
+                    pv = deref_val(ex, o.state, snap[1])
+                    if not (isinstance(pv, Agg) and pv.variant == "Append" and pv.fields):
+                        continue
+                    lst = deref_val(ex, o.state, pv.fields[0])
+                    seq = contents.get(lst.oid) if isinstance(lst, Lazy) else None
+                    tok = deref_val(ex, o.state, snap[0])
+                    if not seq or not isinstance(tok, Lazy):
+                        continue
+                    text = None
+                    cur, steps = tok, 0
+                    while isinstance(cur, Lazy) and cur.oid in ex.havoc_calls and steps < 6:
+                        steps += 1
+                        nm, a = ex.havoc_calls[cur.oid]
+                        if nm.split("::")[-1] == "format_symbol" and len(a) >= 3:
+                            sym = deref_val(ex, o.state, a[2])
+                            for _ in range(4):          # `&TokenReference::symbol(text).unwrap()`: payload of the Result / result of unwrap
+                                if not isinstance(sym, Lazy):
+                                    break
+                                root = sym.oid
+                                while root in ex.parent:
+                                    root = ex.parent[root][0]
+                                hc2 = ex.havoc_calls.get(root)
+                                if hc2 is None:
+                                    break
+                                if hc2[0].endswith("TokenReference::symbol"):
+                                    sa = deref_val(ex, o.state, hc2[1][0])
+                                    text = sa.s if isinstance(sa, Str) else None
+                                    break
+                                if hc2[0].split("::")[-1] in ("unwrap", "expect") and hc2[1]:
+                                    sym = deref_val(ex, o.state, ex.havoc_snap.get(root, hc2[1])[0])
+                                    continue
+                                break
+                                # (symbol() returns a Result: look through unwrap / expect)
+                            break
+                        if nm.split("::")[-1] in ("unwrap", "expect", "update_trailing_trivia", "update_leading_trivia", "to_owned", "clone"):
+                            cur = deref_val(ex, o.state, ex.havoc_snap.get(cur.oid, a)[0])
+                            continue
+                        break
+                    if text is None:
+                        continue
+                    bad = ("leading" in last and seq[-1] == "indent" and text.startswith(" ")) or ("trailing" in last and seq[0] == "newline" and text.endswith(" "))
+                    if bad and (f.name, "symbol-blank", last) not in seen_sites:
+                        seen_sites.add((f.name, "symbol-blank", last))
+                        oid = f"adjacency/{fs}/{f.name}/path{pi}/blank-of-symbol-{text.strip() or 'space'}-next-to-{'indent' if 'leading' in last else 'newline'}"
+                        r, m = ses.obligation(oid, list(o.pc), z3.BoolVal(True), "no indent in front of / newline behind a symbol whose text carries the blank on that side")
+                        if r == "sat":
+                            flagged.append((oid, f"{f.name} puts {'an indent in front of' if 'leading' in last else 'a newline behind'} the symbol {text!r}: the line "
+                                                 f"{'starts with indent + blank' if 'leading' in last else 'ends in a blank'}", "adjacency", {"function": f.name}))
                 if ends_indent and starts_space and (f.name, "cross") not in seen_sites:
                     seen_sites.add((f.name, "cross"))
                     oid = f"adjacency/{fs}/{f.name}/path{pi}/indent-at-the-end-of-a-token-then-space-prepended"
@@ -720,6 +775,8 @@ PROGRAMS = [
     "call(first_argument, -- a\n\t-- b\n\tsecond_argument -- c\n\t, third_argument)\nlocal t = { -- a\n\tk = v, -- b\n\t-- c\n\t[1] = 2 -- d\n\t, 3 }\n",
     "if a -- c1\n\t-- c2\n\tand -- c3\n\tb then -- c4\n\treturn -- c5\nend\nlocal v = a.b -- c6\n\t.c -- c7\n\t:d() -- c8\n",
     "local v = cache[ -- comment\n\t[[key]]\n]\ncache[ [[other]] -- c\n] = 1\nlocal t = { [ -- c\n [==[k]==] ] = 1 }\n",
+    # block comments in front of the keyword that ends a loop / condition header
+    "for i = 1, 10 --[[ inclusive ]] do\n\tf(i)\nend\nfor i = 1, 10, 2 --[[ step ]] do\n\tf(i)\nend\nfor k, v in pairs(t) --[[ all ]] do\n\tf(k)\nend\nwhile x --[[ c ]] do\n\tf()\nend\nif x --[[ c ]] then\n\tf()\nend\n",
 ]
 CONFIGS = [(le, it, iw) for le in ("Unix", "Windows") for it, iw in (("Tabs", 4), ("Spaces", 2), ("Spaces", 3))]
 
@@ -762,6 +819,23 @@ def text_battery(kind):
                 if got != want:
                     return (f"--line-endings {le}: the {'block comment' if kind == 'MultiLineComment' else 'long string'} text {text!r} comes out as {got!r} (expected {want!r})",
                             {"source": src, "flags": ["--line-endings", le], "output": out})
+    return None, {}
+
+
+def replay_multi_config():
+    """two directories with different line_endings / indent settings formatted by ONE process, in both orders"""
+    from .. import clireplay
+    binp = common.native_build("default")
+    body = "local function f(a)\n\tif a then\n\t\treturn { 1,\n 2 }\n\tend\nend\n"
+    files = {"win/stylua.toml": 'line_endings = "Windows"\nindent_type = "Spaces"\nindent_width = 3\n', "win/a.lua": body,
+             "unix/stylua.toml": 'line_endings = "Unix"\nindent_type = "Tabs"\n', "unix/b.lua": body.replace("\n", "\r\n")}
+    for order in (["win", "unix"], ["unix", "win"]):
+        r = clireplay.run_cli(binp, files, ["--num-threads", "1"] + order)
+        for pth, le, it, iw in (("win/a.lua", "\r\n", "Spaces", 3), ("unix/b.lua", "\n", "Tabs", 4)):
+            out = r["after"][pth][0].decode("utf-8", "replace")
+            v = whitespace_violation(mask_literals(out), le, it, iw)
+            if v:
+                return f"`stylua {' '.join(order)}` (per-directory stylua.toml): {pth}: {v}", {"argv": r["argv"], "file": pth, "output": out}
     return None, {}
 
 
@@ -810,7 +884,16 @@ def run(ses, rep):
     rep.outside += ["that every layout path places an indent after each newline (the property's per-line claim) - only the sources of whitespace are decided here",
                     "white space inside comments and string literals other than line breaks", "texts longer than the bound"]
     flagged = []
-    flagged += k1_k2(ses, rep)
+    try:
+        flagged += k1_k2(ses, rep)
+    except Inconclusive as e:
+        # the newline / indent constructors no longer compute their token from the configuration they are given (a cache?): files with different
+        # settings formatted by one process say whether each still gets its own
+        v, rec = replay_multi_config()
+        if v:
+            rep.add("constructors/read-the-configuration", rep.violation({"obligation": "constructors"}, {"what": str(e)[:200], "observed": v, "replay_kind": "multi-config", **rec}), v)
+        else:
+            rep.add("constructors/read-the-configuration", "inconclusive", f"{e}; directories with different line endings / indents still come out right in one run")
     flagged += k3(ses, rep, N)
     flagged += k4(ses, rep)
     flagged += k5(ses, rep)
@@ -860,6 +943,10 @@ def replay(path):
                 v = f"the comment line keeps trailing white space: {first!r}"
             if v:
                 fails = [(v, {"flags": fl})]
+    if not fails and r.get("replay_kind") == "multi-config":
+        v, rec = replay_multi_config()
+        if v:
+            fails = [(v, {"flags": rec.get("argv")})]
     if not fails:
         for kind in ("StringLiteral", "MultiLineComment"):
             v, rec = text_battery(kind)
